@@ -310,3 +310,54 @@ def ls1_shell(model):
             if t.startswith('len('):
                 r.ok_plain('loop invariant ' + t, 'inductive (Houdini)', nontrivial=True)
     return r
+
+
+def ls1w(model):
+    r = RuleResult('LS1w', 'command line: what is written to standard output is the plain text '
+                   'itself (no transformation that could change its length), and the --nums file '
+                   'gets exactly one line per entry of the position list', floor=2)
+    f = model.func('tex2txt.write_output')
+    writes = [n for n in ast.walk(f.node) if isinstance(n, ast.Call) and isinstance(n.func, ast.Attribute)
+              and n.func.attr == 'write']
+    if len(writes) < 2:
+        raise AnalysisError('anchor vanished: the two writes of write_output')
+    tpar = f.params[0]
+    # text write: argument is text_get_txt(text) / text[0] unmodified
+    text_w = [w for w in writes if not any(isinstance(p, ast.For) for p in _ancestors(w))]
+    for w in text_w:
+        a = w.args[0]
+        ok = (isinstance(a, ast.Call) and T.call_name(a) == 'text_get_txt' and unparse(a.args[0]) == tpar) or \
+            (isinstance(a, ast.Subscript) and unparse(a.value) == tpar and T.is_const(a.slice, 0))
+        if ok:
+            r.ok(w, 'the text is written unmodified', nontrivial=True)
+        else:
+            r.fail(w, 'the text written to standard output is transformed (%s): its length no '
+                   'longer equals the number of lines of the --nums file' % unparse(a)[:60],
+                   witness='a text containing the characters the transformation removes / adds')
+    loops = [n for n in ast.walk(f.node) if isinstance(n, ast.For)]
+    for lp in loops:
+        it = lp.iter
+        ok_iter = (isinstance(it, ast.Call) and T.call_name(it) == 'text_get_num') or \
+            (isinstance(it, ast.Subscript) and T.is_const(it.slice, 1))
+        ws = [w for w in writes if lp in _ancestors(w)]
+        uncond = [w for w in ws if w._parent in lp.body or (isinstance(w._parent, ast.Expr) and w._parent in lp.body)]
+        if ok_iter and len(ws) == 1 and len(uncond) == 1 and not any(
+                isinstance(x, (ast.Continue, ast.Break)) for x in ast.walk(lp)):
+            arg = ws[0].args[0]
+            nl = any(isinstance(x, ast.Constant) and x.value == '\n' for x in ast.walk(arg))
+            if nl:
+                r.ok(lp, 'one unconditional write of one line per position entry', nontrivial=True)
+            else:
+                r.fail(ws[0], 'a position is written without its line end')
+        else:
+            r.fail(lp, 'the --nums loop does not write exactly one line per entry of the position list')
+    return r
+
+
+def _ancestors(n):
+    out = []
+    p = getattr(n, '_parent', None)
+    while p is not None:
+        out.append(p)
+        p = getattr(p, '_parent', None)
+    return out
